@@ -78,6 +78,7 @@ class HistoryRun:
         self.dump_each = True
         self.dumps = []         # Verif.Dump after every request (index = request index)
         self.init_freq_abs = []
+        self.sess_texts = {}
 
     def run(self):
         wd = workdir("h")
@@ -123,6 +124,7 @@ class HistoryRun:
                             break
                         continue
                     sids[len(sids)] = r["session_id"]
+                    self.sess_texts[len(sids) - 1] = [c["candidate"] for c in r["candidates"]]
                     ids = [c["id"] for c in r["candidates"]]
                     if ids != [str(i) for i in range(len(ids))]:
                         self.problems.append(("candidate ids are not 0..n-1", {"request": rq, "ids": ids}))
@@ -139,6 +141,8 @@ class HistoryRun:
                         self.problems.append((f"alphabetic conversion of {rq['input']!r} is not answered: {st}", {"request": rq}))
                 elif kind == "confirm":
                     sid = sids.get(rq["session"]) if rq["session"] is not None else "00000000-0000-4000-8000-000000000000"
+                    if "text" in rq and rq["text"] in self.sess_texts.get(rq["session"], []):
+                        rq["cid"] = str(self.sess_texts[rq["session"]].index(rq["text"]))      # the candidate with this text, wherever the server lists it
                     st, r = srv_.call("UpdateFrequency", {"session_id": sid if sid is not None else "no-such-session", "candidate_id": rq["cid"]})
                     ok, dmp = srv_.quiesce()
                     now = max([f[3] for f in (dmp or {}).get("frequencies", [])] + [0]) if isinstance(dmp, dict) else 0
